@@ -93,7 +93,12 @@ impl Writer {
                 return Err(e);
             }
             FileStateTracker::set_block_unlocked(block.id as usize);
-            let _ = self.reader.append_block_to_chain(&self.col, sealed);
+            // A block without entries is not published: recovery cannot see it either (it
+            // has no header), and chain positions persisted by readers must mean the same
+            // before and after a restart.
+            if sealed.used > 0 {
+                let _ = self.reader.append_block_to_chain(&self.col, sealed);
+            }
             debug_print!("[writer] appended sealed block to chain: col={}", self.col);
             #[cfg(walrus_verif)]
             crate::wal::verif::sched_point("w_after_seal");
@@ -275,7 +280,10 @@ impl Writer {
                     return Err(e);
                 }
                 FileStateTracker::set_block_unlocked(block.id as usize);
-                let _ = self.reader.append_block_to_chain(&self.col, sealed);
+                // see Writer::write: empty blocks are not published
+                if sealed.used > 0 {
+                    let _ = self.reader.append_block_to_chain(&self.col, sealed);
+                }
                 #[cfg(walrus_verif)]
                 crate::wal::verif::sched_point("bw_after_seal");
 
